@@ -1,4 +1,94 @@
-import Model
+/-
+  Props/C01.lean — C01 "every diagram the library hands back is well-typed".
+  Property theorems only; proofs are appeals to Proofs/WF.lean and Proofs/WFOps.lean.
+
+  `Diagram.WF d` says: `boxes`/`offsets` are the projections of the layer view, the layer
+  view reads from `d.dom` to `d.cod`, each layer finding `left ++ box.dom ++ right` — i.e.
+  the statement of C01 for one value.
+-/
+import Proofs.WFOps
+
 namespace DV.C01
-theorem placeholder : True := trivial
+open DV
+
+/-- Closure over all sequences of operations of the op language (composition, tensor, dagger,
+    slicing, indexing, interchange, normal form, swaps, permutations, cups, caps, the public
+    constructor): whatever `eval` returns is well-typed. -/
+theorem eval_wf (e : Expr) (d : Diagram) (h : e.eval = .ok d) : d.WF := Expr.eval_wf e h
+
+/-- The scanning public constructor returns only well-typed values carrying exactly the
+    requested fields (ill-typed requests are therefore refused). -/
+theorem mk_ok (dom cod : Ty) (bs : List Box) (os : List Int) (d : Diagram)
+    (h : Diagram.mk? dom cod bs os = .ok d) :
+    d.WF ∧ d.dom = dom ∧ d.cod = cod ∧ d.boxes = bs ∧ d.offsets = os := Diagram.mk?_ok h
+
+/-- `>>` on well-typed operands succeeds exactly when the types match … -/
+theorem then_ok_iff (a b : Diagram) (ha : a.WF) (hb : b.WF) :
+    (∃ d, a.then b = .ok d) ↔ a.cod = b.dom := Diagram.then_ok_iff ha hb
+
+/-- … and is refused with an axiom error otherwise. -/
+theorem then_refused (a b : Diagram) (ha : a.WF) (hb : b.WF) (h : a.cod ≠ b.dom) :
+    a.then b = .error .axiom := Diagram.then_err ha hb h
+
+theorem then_wf (a b d : Diagram) (ha : a.WF) (hb : b.WF) (h : a.then b = .ok d) :
+    d.WF ∧ d.dom = a.dom ∧ d.cod = b.cod := Diagram.then_props ha hb h
+
+/-- `@` on well-typed operands always succeeds and is well-typed. -/
+theorem tensor_wf (a b : Diagram) (ha : a.WF) (hb : b.WF) :
+    ∃ d, a.tensor b = .ok d ∧ d.WF ∧ d.dom = a.dom ++ b.dom ∧ d.cod = a.cod ++ b.cod := by
+  obtain ⟨d, h⟩ := Diagram.tensor_total ha hb
+  exact ⟨d, h, Diagram.tensor_props ha hb h⟩
+
+theorem dagger_wf (d : Diagram) (h : d.WF) :
+    d.dagger.WF ∧ d.dagger.dom = d.cod ∧ d.dagger.cod = d.dom :=
+  ⟨Diagram.dagger_wf h, h.lcod, h.ldom⟩
+
+theorem slice_wf (d d' : Diagram) (s t : Option Int) (hd : d.WF) (h : d.slice s t = .ok d') :
+    d'.WF := Diagram.slice_wf s t hd h
+
+theorem interchange_wf (d d' : Diagram) (i j : Int) (left : Bool) (hd : d.WF)
+    (h : d.interchange i j left = .ok d') : d'.WF ∧ d'.dom = d.dom ∧ d'.cod = d.cod :=
+  Diagram.interchange_wf hd h
+
+/-- Every step yielded by one `normalize` pass is well-typed with the input's type. -/
+theorem normalize_steps_wf (left : Bool) (d d' : Diagram) (steps : List Diagram) (hd : d.WF)
+    (h : normalizePass left (d.boxes.length - 1) 0 d [] = .ok (d', steps)) :
+    ∀ s ∈ steps, s.WF ∧ s.dom = d.dom ∧ s.cod = d.cod :=
+  (normalizePass_wf hd (by simp) h).2
+
+theorem normal_form_wf (d d' : Diagram) (left : Bool) (fuel : Nat) (hd : d.WF)
+    (h : d.normalForm left fuel = .ok d') : d'.WF ∧ d'.dom = d.dom ∧ d'.cod = d.cod :=
+  Diagram.normalForm_wf hd h
+
+theorem swap_wf (l r : Ty) (d : Diagram) (h : Diagram.swap l r = .ok d) :
+    d.WF ∧ d.dom = l ++ r ∧ d.cod = r ++ l := Diagram.swap_props h
+
+theorem permutation_wf (p : List Int) (dom : Ty) (d : Diagram)
+    (h : Diagram.permutation p dom = .ok d) : d.WF ∧ d.dom = dom := Diagram.permutation_props h
+
+theorem cups_wf (l r : Ty) (d : Diagram) (h : Diagram.cups l r = .ok d) : d.WF :=
+  Diagram.cups_wf h
+
+theorem caps_wf (l r : Ty) (d : Diagram) (h : Diagram.caps l r = .ok d) : d.WF :=
+  Diagram.caps_wf h
+
+/-! Non-vacuity: a concrete three-box diagram with a scalar box and an effect evaluates, so the
+    hypotheses above are met by a non-trivial value; and an out-of-range offset is refused. -/
+
+private def x : Ob := ⟨"x", 0⟩
+private def y : Ob := ⟨"y", 0⟩
+private def f : Box := { name := "f", dom := [x], cod := [y, y] }
+private def s : Box := { name := "s", dom := [], cod := [] }
+private def e : Box := { name := "e", dom := [y], cod := [] }
+
+private def isErr (r : Except Err Diagram) (e : Err) : Bool :=
+  match r with | .error e' => e' == e | .ok _ => false
+private def okWith (r : Except Err Diagram) (p : Diagram → Bool) : Bool :=
+  match r with | .error _ => false | .ok d => p d
+
+example : okWith (Expr.interchange (.mk [x] [y] [f, s, e] [0, 1, 0]) 1 2 false).eval
+    (fun d => d.boxes == [f, e, s] && d.offsets == [0, 0, 0]) = true := by decide
+example : isErr (Diagram.mk? [x] [x] [s] [5]) .axiom = true := by decide
+example : isErr (Diagram.mk? [x, y] [x, y] [s] [-1]) .axiom = true := by decide
+
 end DV.C01
